@@ -14,7 +14,7 @@ from harness import engine as E
 from harness import pipe_common as PC
 
 PID = 'C13'
-INVS = ['CardinalityExact', 'HistogramExact', 'HistogramNeverOver', 'RareReportExact', 'CoverageIsPerBatch']
+INVS = ['CardinalityExact', 'HistogramExact', 'HistogramNeverOver', 'RareReportExact', 'CoverageIsPerBatch', 'MeanIsPooledForEqualBatches']
 
 
 def consts(cols, values, missing, maxrows, thr, bound, rare=True, dev=False):
@@ -47,8 +47,10 @@ def gen_quality_file(rng, nrows):
     cols = ['id', 'small', 'mid', 'wide', 'label']
     lines = [','.join(cols) + '\n']
     for p in range(1, nrows + 1):
-        small = rng.choice(['a', 'b', 'c', '', '{}', 'a', 'a'])
-        mid = str(rng.randrange(40)) if rng.random() < 0.9 else ''
+        # missingness drifts along the file, so that per-batch coverages are skewed (mean != median != pooled)
+        late = p > 0.62 * nrows
+        small = rng.choice(['a', 'b', 'c', '', '{}', 'a', 'a']) if not late else rng.choice(['', '{}', '', 'a'])
+        mid = str(rng.randrange(40)) if rng.random() < (0.98 if not late else 0.35) else ''
         wide = f'w{int(rng.paretovariate(0.7)) % 500}'
         lines.append(f'{p % 7},{small},{mid},{wide},{rng.randrange(2)}\n')
     return cols, lines
@@ -215,7 +217,7 @@ def main():
         with open(os.path.join(ds, 'data.csv'), 'w') as f:
             f.writelines(lines2)
         rows2 = [ln.rstrip('\n').split(',') for ln in lines2[1:]]
-        runs = [('ranking', 1500), ('ranking', 3000), ('identify_rare_values', 1500), ('identify_rare_values', 3000)]
+        runs = [('ranking', 1500), ('ranking', 3000), ('ranking', 1000), ('ranking', 600), ('identify_rare_values', 1500), ('identify_rare_values', 3000)]
         if not q:
             runs += [('ranking', 1100), ('identify_rare_values', 1200)]       # consume a prefix only: compared with the recomputation over that prefix
 
@@ -227,7 +229,7 @@ def main():
             rc, err = PC.run_cli(dict(task=task, data_path='ds', data_source='csv-raw', minibatch_size=mb, subsampling=1, heuristic='MI-numba-randomized', num_threads=2,
                                       output_folder='out', rare_value_count_upper_bound=2), sub)
             return run, rc, err, sub
-        with cf.ThreadPoolExecutor(max_workers=4) as ex:
+        with cf.ThreadPoolExecutor(max_workers=6) as ex:
             results = list(ex.map(one, runs))
         # a data set without any rare value: the report must be empty, not missing
         ds0 = os.path.join(wd, 'ds0')
@@ -320,4 +322,9 @@ if __name__ == '__main__':
         sys.exit(main())
     except E.MachineryError as e:
         print(f'MACHINERY-FAILURE {PID}: {e}', file=sys.stderr)
+        sys.exit(2)
+    except Exception as e:  # unexpected harness error: machinery failure, never a verdict
+        import traceback
+        traceback.print_exc()
+        print(f'MACHINERY-FAILURE {PID}: unexpected {type(e).__name__}: {e}', file=sys.stderr)
         sys.exit(2)
